@@ -629,7 +629,10 @@ class Block:
         def get_variables(start: int, end: int) -> List[int]:
             nonlocal factor, level_count, start_idx
             n = self.variables_for_factor(factor, start, end) // level_count
-            return reduce(lambda l, v: l + [start_idx + ((v + start) * level_count)], range(n), [])
+            # The factor has variables only for the trials it applies to, so skip
+            # as many groups as it has applicable trials before `start`.
+            skipped = self._get_previous_trials_variable_count(factor, start + 1)
+            return reduce(lambda l, v: l + [start_idx + ((v + skipped) * level_count)], range(n), [])
         return self.map_block_trial_ranges(within_block, get_variables)
 
     def sustain_count(self, f: Factor):
